@@ -13,6 +13,7 @@ import (
 	hclog "github.com/hashicorp/go-hclog"
 	plugin "github.com/hashicorp/go-plugin"
 	"github.com/hashicorp/go-plugin/runner"
+	"google.golang.org/grpc"
 	"pgregory.net/rapid"
 )
 
@@ -23,6 +24,9 @@ type c18Case struct {
 	TLS    string   `json:"tls"`    // "" | auto | static
 	Launch string   `json:"launch"` // cmd | runner
 	Ops    []string `json:"ops"`    // dispense | call | host_accept | plugin_accept | stdio | blob
+	// StopMask: which of the brokered servers (in order of creation, per side) the caller stops itself
+	// before Kill; the others are still serving when the client is killed
+	StopMask int `json:"stop_mask"`
 }
 
 func c18Gen(t *rapid.T) any {
@@ -33,6 +37,10 @@ func c18Gen(t *rapid.T) any {
 	n := uniform(t, "nops", 7)
 	for i := 0; i < n; i++ {
 		c.Ops = append(c.Ops, []string{"dispense", "call", "host_accept", "plugin_accept", "stdio", "blob"}[weighted(t, "op", 15, 15, 25, 25, 12, 8)])
+	}
+	c.StopMask = uniform(t, "stopmask", 64)
+	if pct(t, "stopall", 25) {
+		c.StopMask = 63
 	}
 	return c
 }
@@ -113,7 +121,7 @@ func c18Run(ci any) (out Outcome) {
 		out.violate("could not start the plugin: %v (%+v)", firstLine(err), *c)
 		return
 	}
-	brokered := 0
+	brokered, plugAccepts := 0, 0
 	var hostEnd *localEnd
 	if gh, ok := h.(*grpcHandle); ok {
 		hostEnd = &localEnd{br: gh.broker, name: "host"}
@@ -132,7 +140,7 @@ func c18Run(ci any) (out Outcome) {
 				_, oerr = h.DoT(Cmd{Op: "write", Writes: []Write{{Stream: "out", Data: []byte("out\n")}, {Stream: "err", Data: make([]byte, 5000)}}}, 20*time.Second)
 			case "host_accept":
 				brokered++
-				id := hostNextID(h)
+				id := freshBrokerID()
 				if hostEnd != nil {
 					hostEnd.accept(id, 0)
 				} else {
@@ -145,13 +153,21 @@ func c18Run(ci any) (out Outcome) {
 				}
 			case "plugin_accept":
 				brokered++
-				id := hostNextID(h)
+				id := freshBrokerID()
 				if _, oerr = h.DoT(Cmd{Op: "broker_accept", ID: id}, 20*time.Second); oerr == nil {
 					if hostEnd != nil {
 						_, oerr = hostEnd.dial(id, 0)
 					} else {
 						_, oerr = c14HostDial(h, id)
 					}
+					if oerr == nil && hostEnd != nil && c.StopMask&(1<<uint(plugAccepts%6)) != 0 {
+						// the plugin author stops this brokered server once the exchange is over
+						if v, ok := hostEnd.conns.Load(id); ok {
+							v.(*grpc.ClientConn).Close()
+						}
+						_, oerr = h.DoT(Cmd{Op: "broker_stop", ID: id}, 20*time.Second)
+					}
+					plugAccepts++
 				}
 			}
 		})
@@ -169,7 +185,7 @@ func c18Run(ci any) (out Outcome) {
 	}
 	// the user's own part of a clean shutdown: close the connections and servers they created
 	if hostEnd != nil {
-		hostEnd.cleanup()
+		hostEnd.cleanupPartial(c.StopMask)
 	}
 	killed = true
 	if el, ok := killBounded(cl, 20*time.Second); !ok {
@@ -211,5 +227,5 @@ var propC18 = register(&Prop{
 	ID: "C18", Gen: c18Gen, New: func() any { return &c18Case{} }, Run: c18Run,
 	Rule: "rapid draws protocol (net/rpc, gRPC, gRPC+mux), TLS mode (none, AutoMTLS, static), launch method (exec.Cmd, custom runner) and a history of 0-6 operations over {dispense, call, brokered connection accepted by the host and dialled by the plugin, brokered connection accepted by the plugin and dialled by the host, synced stdio traffic, large response}, then closes its own brokered connections and calls Kill. " +
 		"Both sides get private directories (plugin TMPDIR, host UnixSocketConfig.TempDir; host-side brokered sockets are found by diffing the process temp dir). Oracle: after the graceful exit the plugin's directory, the host's directory and the temp-dir diff are empty (no socket file, no plugin-dir*), and within 9 s the number of goroutines inside go-plugin / yamux / grpc transport is back to the pre-case baseline on two consecutive samples. Non-trivial: >= 1 brokered connection, or multiplexing on.",
-	Assumptions: []string{"the caller closes the brokered connections and servers it created itself before Kill"},
+	Assumptions: []string{"the caller closes the brokered client connections it dialled; brokered servers are stopped by the caller or left running, as drawn (stop_mask)"},
 })
